@@ -331,6 +331,14 @@ func (e *Engine) runSteps(st *State, concrete bool) (done bool, out Outcome) {
 			continue
 		}
 		if st.steps >= e.StepBudget {
+			if traceRing != nil {
+				fmt.Println("TRACE (last instructions before the step budget ran out):")
+				for i := 0; i < len(traceRing); i++ {
+					if l := traceRing[(traceIdx+i)%len(traceRing)]; l != "" {
+						fmt.Println("   ", l)
+					}
+				}
+			}
 			return true, Outcome{Kind: OutUnwind, Label: fmt.Sprintf("step budget %d exhausted", e.StepBudget), Site: st.site(), Stack: st.stack()}
 		}
 		if e.PathTimeout > 0 && st.steps&15 == 0 {
@@ -348,6 +356,10 @@ func (e *Engine) runSteps(st *State, concrete bool) (done bool, out Outcome) {
 			e.prof[f.fn]++
 		}
 		in := f.block.Instrs[f.pc]
+		if traceRing != nil {
+			traceRing[traceIdx%len(traceRing)] = fmt.Sprintf("%s b%d.%d %v", f.fn.Name(), f.block.Index, f.pc, in)
+			traceIdx++
+		}
 		st.exec(f, in)
 	}
 }
@@ -374,8 +386,11 @@ func (e *Engine) handleFork(st *State, cond *T) *Outcome {
 		st.subst[cond] = c.Bool(side)
 		st.memo = map[*T]*T{}
 	case Unsat:
-		// implied: remember without growing the PC
+		// implied: remember without growing the PC.  The decision is recorded for the condition itself as
+		// well: the negation may have been canonicalised into another comparison (not(a<b) -> b<=a), in which
+		// case learning it alone does not settle cond and the instruction would be re-executed forever
 		st.learn(mine, c.True)
+		st.subst[cond] = c.Bool(side)
 		st.memo = map[*T]*T{}
 	default:
 		o := Outcome{Kind: OutUnsupported, Label: "solver unknown on branch", Site: st.site(), Stack: st.stack()}
@@ -720,3 +735,16 @@ func (e *Engine) Abort(why string) { e.abort = why }
 
 // Aborted reports why the exploration was cut short by Abort ("" if it was not).
 func (e *Engine) Aborted() string { return e.aborted }
+
+// debugging aid: VSYM_TRACE=n keeps the last n executed instructions and prints them when a path runs
+// out of its step budget
+var traceRing []string
+var traceIdx int
+
+func init() {
+	if v := os.Getenv("VSYM_TRACE"); v != "" {
+		n := 60
+		fmt.Sscan(v, &n)
+		traceRing = make([]string, n)
+	}
+}
